@@ -325,7 +325,7 @@ PROPS['C10'] = {
                     'a change that only moves the thresholds inward/outward keeps both branch formulas valid and is invisible to the contracts'],
 }
 PROPS['C14'] = {
-    'verus': ['u_ops', 'u_polycalc', 'u_log'],
+    'verus': ['u_ops', 'u_polycalc', 'u_log', 'u_polyn'],
     'kani': {
         'quick': [kset('c14',
                        [H(f'c14_translate_poly{k}', 'poly', SMALL if k else None, k == 0, [f'src/poly.rs: impl Translate for Poly{k} :: translate']) for k in range(0, 9)] +
@@ -344,10 +344,11 @@ PROPS['C14'] = {
     'explanation': 'Verus contracts (exact-real model + secondary bit-level lane assertions) on the real bodies of Mul<f64>, Neg, Add for Poly0..Poly8 and '
                    'IntOfLogPoly4::{Mul, Neg}, and of translate for Poly0..Poly8, IntOfLog<T>, IntOfLogPoly4: every lane is s*c, -c, c1+c2; translate changes the additive '
                    'constant only. Pointwise corollaries proved from the lane contracts alone for every degree and every real X: lemma_scale_value_k ((s f)(X) = s f(X)), '
-                   'lemma_add_value_k ((f+g)(X) = f(X)+g(X)), lemma_translate_value_k (translate raises the value by c at every X). Kani (bit-precise, compiled crate): translate of every PolyK and PolyN (empty -> constant c), `*=` equals `*` lane by lane for a finite '
+                   'lemma_add_value_k ((f+g)(X) = f(X)+g(X)), lemma_translate_value_k (translate raises the value by c at every X). PolyN::translate (unit u_polyn, real body with get_mut/push, FM-bits only, ANY length): an empty vector becomes [c]; otherwise lane 0 is the single IEEE sum of c_0 and c and the length and all other lanes are unchanged. Kani (bit-precise, compiled crate): translate of every PolyK and PolyN (empty -> constant c), `*=` equals `*` lane by lane for a finite '
                    'scalar set and integer-valued coefficients; the generic wrappers Log<T>/IntOfLog<T> with a recording piece type; IntOfLogPoly4 +/- by value and by reference.',
     'assumptions': [FM_NOTE, FM_BITS, TY_NOTE,
-                    'bounded (Kani): `*=`, the IntOfLog<T> wrapper and IntOfLogPoly4 +/- are checked for integer-valued operands in [-100,100] and scalars from {0, -1, 2, 0.5, 3}; PolyN::translate for lengths 0, 1, 3',
+                    'bounded (Kani): `*=`, the IntOfLog<T> wrapper and IntOfLogPoly4 +/- are checked for integer-valued operands in [-100,100] and scalars from {0, -1, 2, 0.5, 3}; PolyN::translate for lengths 0, 1, 3 (Kani cross-check; the Verus unit u_polyn is unbounded)',
+                    'u_polyn: vstd contracts for Vec::get_mut (mutable reference into the vector) and Vec::push; rule 4 written as an explicit substitution (`*x0 += v` -> `*x0 = *x0 + v`); the lane-0 sum is accepted in either operand order',
                     PARAM + ' (used for the generic wrappers Log<T>, IntOfLog<T>)',
                     'bit-level lane assertions ([bits]) are secondary: their failure alone is reported only with a concrete failing input'],
 }
@@ -460,7 +461,7 @@ def mp(name, module, what):
 PROPS['C16'] = {
     'verus': ['u_pwsel', 'u_merge', 'u_pweval'],
     # units of the other properties: only their panic-class obligations (assert!, index/overflow/division, exec-callee preconditions) count here
-    'verus_panic_only': ['u_evalv', 'u_approx', 'u_segment', 'u_linear', 'u_spline', 'u_polycalc', 'u_log', 'u_ops', 'u_polyeval'],
+    'verus_panic_only': ['u_evalv', 'u_polyn', 'u_approx', 'u_segment', 'u_linear', 'u_spline', 'u_polycalc', 'u_log', 'u_ops', 'u_polyeval'],
     'kani': {
         'quick': [kset('c16',
                        hs('c02_direct_n', 'piecewise', [1, 2, 3, 4, 9], 'segments N = {n}; every f64 argument', PW_EVAL) +
